@@ -154,12 +154,18 @@ func run(args []string) error {
 	for b := 0; b < nBlocks; b++ {
 		headTime := when
 		when += uint64(10 + r.Intn(100000))
-		i := r.Intn(len(unspent))
-		in := unspent[i]
-		unspent = append(unspent[:i], unspent[i+1:]...)
-		t := w.Spend(coin.UxArray{in}, headTime, nk.SpendOpts{Fee: "min", NOut: 1 + r.Intn(3)})
-		if _, _, err := pub.V.InjectForeignTransaction(t); err != nil {
-			return fmt.Errorf("publisher inject: %v", err)
+		// 1-3 transactions per block (several transactions of one block often touch
+		// the same address: the per-address history index must hold them all)
+		nt := 1 + r.Intn(3)
+		var t coin.Transaction
+		for k := 0; k < nt && len(unspent) > 0; k++ {
+			i := r.Intn(len(unspent))
+			in := unspent[i]
+			unspent = append(unspent[:i], unspent[i+1:]...)
+			t = w.Spend(coin.UxArray{in}, headTime, nk.SpendOpts{Fee: "min", NOut: 1 + r.Intn(3)})
+			if _, _, err := pub.V.InjectForeignTransaction(t); err != nil {
+				return fmt.Errorf("publisher inject: %v", err)
+			}
 		}
 		sb, err := pub.V.VerifCreateBlock(when)
 		if err != nil {
